@@ -41,6 +41,28 @@ static int ode_mode(const char* integ, int o1, int o2, int o3, double dt){
     reb_simulation_free(r);
     return 0;
 }
+/* "ctl:ias15"  o1 = adaptive_mode, o2 = -log10(epsilon), o3 = steps; mode "unsync" sets min_dt = 0.02
+   "ctl:bs"     o1 = unused,        o2 = -log10(eps_rel = eps_abs), o3 = steps            (eccentric system, large first dt) */
+static int ctl_mode(const char* integ, int o1, int o2, int o3, int with_min_dt, double dt){
+    struct reb_simulation* r = reb_simulation_create();
+    struct reb_particle p = {0};
+    p.m = 1.0; reb_simulation_add(r, p);
+    p.m = 1e-3; p.x = 0.4; p.y = 0.01; p.z = 0.01; p.vx = -0.02; p.vy = 2.0; p.vz = 0.03; reb_simulation_add(r, p);
+    p.m = 5e-4; p.x = -0.1; p.y = 2.3; p.z = -0.03; p.vx = -0.65; p.vy = -0.02; p.vz = 0.01; reb_simulation_add(r, p);
+    reb_simulation_move_to_com(r);
+    r->dt = dt;
+    double eps = pow(10., -o2);
+    if (!strcmp(integ, "ias15")){
+        r->integrator = REB_INTEGRATOR_IAS15; r->ri_ias15.adaptive_mode = o1; r->ri_ias15.epsilon = eps;
+        r->ri_ias15.min_dt = with_min_dt ? 0.02 : 0.0;
+    }else if (!strcmp(integ, "bs")){
+        r->integrator = REB_INTEGRATOR_BS; r->ri_bs.eps_rel = eps; r->ri_bs.eps_abs = eps;
+    }else return 2;
+    reb_simulation_steps(r, o3);
+    fprintf(stderr, "STATE %.17g %.17g %.17g\n", r->particles[1].x, r->particles[1].y, r->t);
+    reb_simulation_free(r);
+    return 0;
+}
 int main(int argc, char** argv){
     if (argc < 7) return 2;
     const char* integ = argv[1];
@@ -48,6 +70,7 @@ int main(int argc, char** argv){
     int unsync = strcmp(argv[5], "unsync") == 0;
     double dt = atof(argv[6]);
     if (!strncmp(integ, "ode:", 4)) return ode_mode(integ + 4, o1, o2, o3, dt);
+    if (!strncmp(integ, "ctl:", 4)) return ctl_mode(integ + 4, o1, o2, o3, unsync, dt);
     struct reb_simulation* r = reb_simulation_create();
     struct reb_particle p = {0};
     p.m = 1.0; reb_simulation_add(r, p);
@@ -64,6 +87,10 @@ int main(int argc, char** argv){
         r->integrator = REB_INTEGRATOR_EOS; r->ri_eos.phi0 = o1; r->ri_eos.phi1 = o2; r->ri_eos.n = o3; r->ri_eos.safe_mode = !unsync;
     }else if (!strcmp(integ, "janus")){
         r->integrator = REB_INTEGRATOR_JANUS; r->ri_janus.order = o1; r->ri_janus.scale_pos = 1e-14; r->ri_janus.scale_vel = 1e-14;
+    }else if (!strcmp(integ, "mercurius")){
+        r->integrator = REB_INTEGRATOR_MERCURIUS; r->ri_mercurius.safe_mode = !unsync;
+    }else if (!strcmp(integ, "trace")){
+        r->integrator = REB_INTEGRATOR_TRACE; r->ri_trace.peri_mode = o1;
     }else return 2;
     reb_simulation_step(r);
     if (unsync){
